@@ -140,13 +140,27 @@ func c38Round(c *core.Ctx, work string, idx int) {
 	ov.Opt.NumMemtables = 2
 	ov.Opt.MemTableSize = 16 << 10
 	ov.Opt.ValueLogMaxEntries = 40
+	if idx%2 == 1 {
+		ov.Opt.ValueThreshold = 2048 // values stay in the memtable: it fills after ~10 commits and L0 is under constant pressure
+		ov.Opt.VLogPercentile = 0
+	}
 	db, err := badger.Open(ov.Opt)
 	if err != nil {
 		c.Inconclusive("open: " + err.Error())
 		return
 	}
-	s := sched.Install(sched.Config{Seed: r.Int63(), Prob: 0.03, MaxSleep: 2 * time.Millisecond,
-		ProbBy: map[string]float64{"flush.beforeAdd": 0.5, "flush.beforePop": 0.5, "compact.afterManifest": 0.5, "compact.afterReplace": 0.5, "dropprefix.beforeLevels": 1, "dropall.afterPrepare": 1}})
+	scfg := sched.Config{Seed: r.Int63(), Prob: 0.03, MaxSleep: 2 * time.Millisecond,
+		ProbBy: map[string]float64{"flush.beforeAdd": 0.5, "flush.beforePop": 0.5, "compact.afterManifest": 0.5, "compact.afterReplace": 0.5, "dropprefix.beforeLevels": 1, "dropall.afterPrepare": 1}}
+	slowCompactions := idx%2 == 1
+	if slowCompactions {
+		// compactions take tens of milliseconds: L0 sits at its stall limit and the writers are
+		// stalled most of the time, which is when the maintenance calls arrive
+		scfg.MaxSleep = 25 * time.Millisecond
+		for _, p := range []string{"compact.afterBuild", "compact.afterManifest", "compact.afterReplace", "compact.afterDelete"} {
+			scfg.ProbBy[p] = 1
+		}
+	}
+	s := sched.Install(scfg)
 	defer sched.Uninstall()
 	tr := &callTracker{inflight: map[int64]string{}, started: map[int64]time.Time{}}
 	keys := gen.KeySet(r, 40, 8)
@@ -410,9 +424,100 @@ func c38Round(c *core.Ctx, work string, idx int) {
 	c.Count("ev.compact.shape", evs["compact.shape"])
 	c.Count("point.dropprefix.beforeLevels", pts["dropprefix.beforeLevels"])
 	c.Count("point.dropall.afterPrepare", pts["dropall.afterPrepare"])
-	c.Distinct(fmt.Sprintf("%s|compactors=%d|stall=%d", ov.Name, ov.Opt.NumCompactors, ov.Opt.NumLevelZeroTablesStall))
+	c.Count("l0.stall_ms", db.VerifL0StallMs())
+	c.Distinct(fmt.Sprintf("%s|compactors=%d|stall=%d|slow-compactions=%v", ov.Name, ov.Opt.NumCompactors, ov.Opt.NumLevelZeroTablesStall, slowCompactions))
 	if idx < 2 {
 		c.Sample(info)
+	}
+}
+
+// c38FullL0: the database is opened with level 0 already at its stall limit (three earlier sessions
+// without compactors each left one L0 table behind), a write lands in the memtable, and a maintenance
+// call that has to flush that memtable is issued at once, before or while the compactors (which start
+// with a random delay) drain level 0. Every call must return.
+func c38FullL0(c *core.Ctx, work string, idx int, op string) {
+	dir := filepath.Join(work, fmt.Sprintf("full%d", idx))
+	_ = os.MkdirAll(dir, 0o755)
+	defer os.RemoveAll(dir)
+	r := c.Rand(fmt.Sprintf("c38-full-%d", idx))
+	base := hist.SmallOptions(dir, 0, r).Opt
+	base.MemTableSize = 64 << 10
+	stall := 2 + idx%3
+	prep := base
+	prep.NumCompactors = 0
+	prep.NumLevelZeroTablesStall = 1000
+	prep.NumLevelZeroTables = 500
+	prep.CompactL0OnClose = false
+	for sess := 0; sess < stall; sess++ {
+		db, err := badger.Open(prep)
+		if err != nil {
+			c.Inconclusive("open: " + err.Error())
+			return
+		}
+		_ = db.Update(func(txn *badger.Txn) error {
+			for j := 0; j < 20; j++ {
+				if err := txn.Set([]byte(fmt.Sprintf("p%d-%02d", sess, j)), gen.Expand("x", 100)); err != nil {
+					return err
+				}
+			}
+			return nil
+		})
+		_ = db.Close()
+	}
+	opt := base
+	opt.NumCompactors = 2 + idx%2
+	opt.NumLevelZeroTables = 1
+	opt.NumLevelZeroTablesStall = stall
+	db, err := badger.Open(opt)
+	if err != nil {
+		c.Inconclusive("open: " + err.Error())
+		return
+	}
+	l0 := 0
+	for _, t := range db.Tables() {
+		if t.Level == 0 {
+			l0++
+		}
+	}
+	tr := &callTracker{inflight: map[int64]string{}, started: map[int64]time.Time{}}
+	done := make(chan struct{})
+	go func() {
+		defer close(done)
+		defer func() { _ = recover() }()
+		id := tr.begin("Update")
+		_ = db.Update(func(txn *badger.Txn) error { return txn.Set([]byte("p0-new"), gen.Expand("y", 100)) })
+		tr.end(id)
+		id = tr.begin(op)
+		switch op {
+		case "DropPrefix":
+			_ = db.DropPrefix([]byte("p0"))
+		case "DropAll":
+			_ = db.DropAll()
+		case "Flatten":
+			_ = db.Flatten(2)
+		case "RunValueLogGC":
+			_ = db.RunValueLogGC(0.5)
+		}
+		tr.end(id)
+		id = tr.begin("Close")
+		_ = db.Close()
+		tr.end(id)
+	}()
+	c.Eval(1)
+	c.Count("full_l0.cases", 1)
+	if l0 >= stall {
+		c.Count("full_l0.cases_opened_at_the_stall_limit", 1)
+		c.Distinct(fmt.Sprintf("full-l0|%s|stall=%d", op, stall))
+	}
+	select {
+	case <-done:
+	case <-time.After(45 * time.Second):
+		v, dead := analyse(tr, op+" right after opening with a full level 0")
+		if dead {
+			c.Violation("C38|no-progress|("+op+" right after opening with a full level 0)", v[:min(len(v), 300)], map[string]any{"l0_tables_at_open": l0, "stall_limit": stall, "dump": v})
+		} else {
+			c.Inconclusive(v)
+		}
 	}
 }
 
@@ -420,16 +525,24 @@ func c38Round(c *core.Ctx, work string, idx int) {
 func C38(c *core.Ctx) {
 	c.Rule("bounded-progress restatement: with 2-4 compactors, 16 KiB memtables, NumLevelZeroTables=1 and stall at 2-3 tables (L0 stalls and full flush queues are the normal " +
 		"state), 6 committers (Commit and CommitWith), 3 readers/iterators, a WriteBatch flusher and a maintenance goroutine (RunValueLogGC, DropPrefix, DropAll, Flatten, " +
-		"Subscribe+cancel) run for 1.5-4 s with delays at flush/compaction/drop schedule points, then 2-6 subscribers are registered and Close is called while the committers keep committing and the subscribers' contexts are cancelled (some callbacks return errors) during the shutdown; every call is tracked; a " +
+		"Subscribe+cancel) run for 1.5-4 s with delays at flush/compaction/drop schedule points (every second round with compactions slowed to tens of milliseconds, so that L0 sits at its stall limit and writers are stalled while the maintenance calls arrive), then 2-6 subscribers are registered and Close is called while the committers keep committing and the subscribers' contexts are cancelled (some callbacks return errors) during the shutdown; every call is tracked; a " +
 		"call older than 45 s starts an analysis (two full goroutine dumps 8 s apart + completed-call counter): unchanged blocked badger stacks and no completed call = violation " +
-		"with the dump as witness, anything else = inconclusive; a panic inside badger raised by a public call is a violation; distinct = (options, compactors, stall) configurations")
+		"with the dump as witness, anything else = inconclusive; a panic inside badger raised by a public call is a violation; plus full-L0 cases: the database is re-opened with level 0 at its stall limit and a write + DropPrefix / DropAll / Flatten / RunValueLogGC + Close are issued at once; distinct = (options, compactors, stall) configurations")
 	work := c.WorkDir()
 	defer os.RemoveAll(work)
 	for i := 0; i < c.Pick(8, 60); i++ {
 		c38Round(c, work, i)
 	}
+	for i, op := range []string{"DropPrefix", "DropAll", "Flatten", "RunValueLogGC", "DropPrefix", "DropPrefix"} {
+		if i < c.Pick(4, 6) || c.Thorough() {
+			c38FullL0(c, work, i, op)
+		}
+	}
 	if c.Counter("calls.completed") == 0 {
 		c.Inconclusive("no calls completed")
+	}
+	if c.Counter("l0.stall_ms") == 0 {
+		c.Inconclusive("writes were never stalled on a full level 0")
 	}
 	c.CheckRaces(nil, "", "")
 	c.Assume("liveness is restated as bounded progress: a finite run cannot prove absence of deadlock, it can only exhibit one; StreamWriter (documented for unused databases) is exercised in C26")
